@@ -34,6 +34,17 @@ fn check_cell(rep: &Report, acc: &mut Acc, enc: &dvb_gse_rust::gse_encap::Encaps
              json!({"call":"encap_frag","pdu_len":p,"pdu_pattern":0,"frag_id":fid,"ctx_pos":pos,"ctx_crc":ctx.crc,"buffer_len":b,"result":format!("{:?}",out)}))
         });
     }
+    if let EncOut::Panic(pn) = &out {
+        // "a buffer that cannot carry anything useful is rejected" / "each successful continuation call ...": a call within
+        // the PDU (context not beyond it) that panics does neither
+        if pos <= p {
+            let sig = format!("C11|encap_frag|panic|{}|{}", Panicked(pn.clone()).coarse(), if b < 7 { "b<7" } else { "b>=7" });
+            rep.violation(&sig, (p * 100_000 + b) as u64, || {
+                (format!("encap_frag(pdu_len={}, context=(id {}, pos {}), buffer={}) panics at {}: the buffer is neither used nor rejected", p, fid, pos, b, pn),
+                 json!({"call":"encap_frag","pdu_len":p,"pdu_pattern":0,"frag_id":fid,"ctx_pos":pos,"ctx_crc":ctx.crc,"buffer_len":b,"result":format!("{:?}",out)}))
+            });
+        }
+    }
     let dirty = if matches!(out, EncOut::Panic(_)) { b } else { out.len().unwrap_or(0).min(b).max(b.min(16)) };
     for x in buf[..dirty].iter_mut() {
         *x = sent;
